@@ -18,6 +18,8 @@ ASSUMPTIONS = [
     "unbounded row/column ranges are outside coq/Model/Trim.v: that stream is judged by the oracle alone",
     "the spelling of an address (quoted sheet, $, lower case, address objects) and multi-sheet workbooks are outside "
     "coq/Model/Trim.v (nodes are indices there): the spelling stream is judged by the oracle alone",
+    "the trim-colb stream (whole-column reference S!B:B as a node of range kind, alias of the bounded range "
+    "node) is model-backed except for the survival of the reference node itself (repair 17855a0 is not in Trim.v)",
 ]
 
 
@@ -264,7 +266,139 @@ def run(ctx):
     except Exception:      # noqa: BLE001
         import traceback
         ctx.broke("harness: spelling_stream failed", traceback.format_exc())
+    colb_stream(ctx, ExcelCompiler)
     shutil.rmtree(ctx.work, ignore_errors=True)
+
+
+def colb_stream(ctx, ExcelCompiler):
+    """Model-backed: the two-column workbooks of harness/wbgen.py (gen_workbook(colb=True): constants and trailing
+    blanks in column B, formulas of column A over the whole column B:B, the explicit B1:Bm, smaller blocks and
+    single cells of column B).  Outputs = 1-2 formula cells, inputs = 1-2 constants among their ancestors (cells of
+    column B: members of the whole-column range; cells of column A).  Legs: untrimmed, trimmed (before / after the
+    first evaluate), trimmed + saved + loaded; 3 assignment rounds.  Oracle: every leg = untrimmed.  Model:
+    Model/Trim.v on the same case (S!B:B = a node of range kind, Model/GraphExpr.v FAlias): outputs of every round
+    on the trimmed machine, the surviving cells and the frozen formula cells; Model/Graph.v on the untrimmed rounds.
+    Model/Trim.v has no counterpart of repair 17855a0 (the reference cell of an unbounded range is kept whenever the
+    walk over the precedents reaches it; the machine deletes it when no input is below it and computes it again on
+    demand): the surviving cell sets are compared without the reference node."""
+    rng = ctx.rng
+    batch = []
+    for k in range(ctx.n(60, 600)):
+        wb = wbgen.gen_workbook(rng, ncells=rng.randrange(4, 8), pool=wbgen.CLEAN_POOL + [0, 1], colb=True)
+        desc = [(x['addr'], x.get('value'), x.get('text')) for x in wb.nodes]
+        formulas = wb.formulas()
+        for ci in range(2):
+            outs = tuple(rng.sample(formulas, 1 if len(formulas) < 2 or rng.random() < 0.7 else 2))
+            anc = sorted(a for o in outs for a in ancestors(wb, o) if wb.nodes[a]['kind'] == 'input')
+            anc = list(dict.fromkeys(anc))
+            if not anc:
+                continue
+            ins = tuple(rng.sample(anc, 1 if len(anc) < 2 or rng.random() < 0.5 else 2))
+            in_addrs = [wb.nodes[i]['addr'] for i in ins]
+            out_addrs = [wb.nodes[o]['addr'] for o in outs]
+            case = dict(call='trim-colb', workbook=desc, args=[in_addrs, out_addrs])
+            early = rng.random() < 0.5
+            try:
+                full = ExcelCompiler(excel=wb.to_openpyxl())
+                trimmed = ExcelCompiler(excel=wb.to_openpyxl())
+                if not early:
+                    for o in outs:
+                        trimmed.evaluate(wb.nodes[o]['addr'])
+                trimmed.trim_graph(in_addrs, out_addrs)
+            except ValueError:
+                ctx.histogram['colb-refused'] = ctx.histogram.get('colb-refused', 0) + 1
+                continue
+            except Exception as exc:      # noqa: BLE001
+                ctx.violation(dict(case, early=early), f"trim_graph raises {type(exc).__name__}: {exc}"[:200])
+                continue
+            kept = sorted(i for i, x in enumerate(wb.nodes) if x['addr'] in trimmed.cell_map)
+            frozen = sorted(i for i in formulas if wb.nodes[i]['addr'] in trimmed.cell_map
+                            and not trimmed.cell_map[wb.nodes[i]['addr']].formula)
+            legs = [('untrimmed', full), ('trimmed', trimmed)]
+            ext = rng.choice(['yml', 'json', 'pkl'])
+            stem = os.path.join(ctx.work, f'colb{k}_{ci}_m')
+            try:
+                trimmed.to_file(stem, file_types=(ext,))
+                legs.append(('loaded', ExcelCompiler.from_file(stem + '.' + ext)))
+            except Exception as exc:      # noqa: BLE001
+                ctx.violation(dict(case, leg='save/load', format=ext, early=early),
+                              f"save/load of the trimmed model raises {type(exc).__name__}: {exc}"[:200])
+            for f in os.listdir(ctx.work):
+                if f.startswith(f'colb{k}_{ci}_'):
+                    os.remove(os.path.join(ctx.work, f))
+            ctx.count(('colb', k, ci), kind='trim-colb:' + ('early' if early else 'late'),
+                      sample=dict(case, early=early))
+            rounds, per_round, full_ops = [], [], []
+            for rnd in range(3):
+                assign = {i: rng.choice(wbgen.CLEAN_POOL) for i in ins} if rnd else {}
+                rounds.append(assign)
+                res = {}
+                for name, comp in legs:
+                    try:
+                        for i, v in assign.items():
+                            if name == 'untrimmed' and wb.nodes[i]['addr'] not in comp.cell_map:
+                                comp.evaluate(wb.nodes[i]['addr'])
+                                full_ops.append(([0, i], False))
+                            comp.set_value(wb.nodes[i]['addr'], v)
+                            if name == 'untrimmed':
+                                full_ops.append(([1, i, enc_val(v)], False))
+                        res[name] = [canon(comp.evaluate(a)) for a in out_addrs]
+                    except Exception as exc:      # noqa: BLE001
+                        res[name] = f'{type(exc).__name__}: {exc}'[:120]
+                full_ops.extend(([0, o], True) for o in outs)
+                per_round.append(res)
+                for name, _ in legs[1:]:
+                    if res[name] != res['untrimmed']:
+                        ctx.violation(dict(case, leg=name, early=early, round=rnd,
+                                           assign={wb.nodes[i]['addr']: v for i, v in assign.items()}),
+                                      f"outputs of the {name} model differ from the untrimmed model",
+                                      impl=res[name], expected=res['untrimmed'])
+            batch.append((case, wb, ins, outs, early, rounds, per_round, kept, frozen, full_ops))
+    if not ctx.model or not batch:
+        return
+    calls = [trim_call(wb, ins, outs, early, rounds) for (_, wb, ins, outs, early, rounds, _, _, _, _) in batch]
+    calls += [('history', [wb.wire(), [op for op, _ in ops]]) for (_, wb, _, _, _, _, _, _, _, ops) in batch]
+    answers = ctx.model.batch(calls)
+    compared = dict(trim_cases=0, outputs=0, untrimmed_values=0, reference_kept_by_the_code_only=0)
+    for (case, wb, ins, outs, early, rounds, per_round, kept, frozen, ops), ans, hist in zip(
+            batch, answers[:len(batch)], answers[len(batch):]):
+        if not isinstance(ans, list) or len(ans) != 5 or ans[0] != 0:
+            ctx.divergence(dict(case, early=early), 'trim_graph accepted the inputs', ans if not isinstance(ans, list)
+                           else ans[:1], 'Model/Trim.v trim entry accepts the case')
+            continue
+        compared['trim_cases'] += 1
+        _, mkeptf, mfrozenf, _, mrounds = ans
+        ref = wb.colref
+        mkept = [i for i, f in enumerate(mkeptf) if f and i != ref]
+        compared['reference_kept_by_the_code_only'] += (ref in kept and not mkeptf[ref])
+        if mkept != [i for i in kept if i != ref]:
+            ctx.divergence(dict(case, early=early), kept, mkept,
+                           'Model/Trim.v kept cells = cell_map after trim_graph (reference node S!B:B left out)')
+            continue
+        mfrozen = [i for i, f in enumerate(mfrozenf) if f and wb.nodes[i]['kind'] == 'formula']
+        if mfrozen != frozen:
+            ctx.divergence(dict(case, early=early), frozen, mfrozen,
+                           'Model/Trim.v frozen formula cells = cells whose formula trim_graph removed')
+            continue
+        for rnd, (res, mvals) in enumerate(zip(per_round, mrounds)):
+            iv = res.get('trimmed')
+            if not isinstance(iv, list):
+                continue
+            mv = [model_value(x) for x in mvals]
+            compared['outputs'] += len(iv)
+            if len(mv) != len(iv) or any(not same(a, b) for a, b in zip(mv, iv)):
+                ctx.divergence(dict(case, early=early, round=rnd,
+                                    assign={wb.nodes[i]['addr']: v for i, v in rounds[rnd].items()}),
+                               iv, mv, 'Model/Trim.v outputs on the trimmed machine = trimmed ExcelCompiler.evaluate')
+                break
+        if isinstance(hist, list) and (not hist or isinstance(hist[0], list)):
+            want = [v for res in per_round if isinstance(res.get('untrimmed'), list) for v in res['untrimmed']]
+            vals = [model_value(m[0]) for (op, is_out), m in zip(ops, hist) if is_out]
+            compared['untrimmed_values'] += len(vals)
+            if len(vals) != len(want) or any(not same(a, b) for a, b in zip(vals, want)):
+                ctx.divergence(dict(case, leg='untrimmed'), want, vals,
+                               'Model/Graph.v evaluate = untrimmed ExcelCompiler.evaluate (two-column workbook)')
+    ctx.extra['correspondence_colb'] = compared
 
 
 # ------------------------------------------------------------------ unbounded row / column ranges
